@@ -3,8 +3,7 @@
    per-send outcomes, broker packets, transport failures, keepalive inputs, and API calls made from
    inside every user callback).  The checkers are in Link/ConnCheck.v.  c10_ops_ok (Link/ConnStatements.v)
    is the conjunction of two exclusions, each the signature of an open finding and shown to be needed below:
-   D (F-C10d) in direct-write mode on_socket_open makes no API call, in external-loop mode it does not call
-   reconnect(); R (F-C10i) on_socket_close/on_socket_unregister_write call only publish/subscribe,
+   D (F-C10k, what is left of F-C10d) on_socket_open does not call reconnect(); R (F-C10i) on_socket_close/on_socket_unregister_write call only publish/subscribe,
    on_socket_register_write does not call reconnect(). *)
 From PahoV Require Import Base.Prelude Link.Conn Link.ConnCheck Link.ConnInv Link.ConnStatements
   Link.C10Inv Link.C10Proofs Link.ConnRefuted Link.ConnFuel.
@@ -50,15 +49,16 @@ Proof. exact conn_model_complete. Qed.
 Print Assumptions C10_model_complete.
 
 (* each exclusion is needed: dropping it alone admits a run of the model that violates a clause; and the
-   witnesses of the defects repaired in /repo (F-C10e, f, g, j) now satisfy every clause *)
+   witnesses of the defects repaired in /repo (F-C10d, e, f, g, j) now satisfy every clause *)
 Example C10_exclusions_needed :
-  (c10_ops_sel false true direct_cb w_D = true /\ c10_wire_ok (optrace direct_cb w_D) = false) /\
+  (c10_ops_sel false true extloop_cb w_D = true /\ c10_wire_ok (optrace extloop_cb w_D) = false) /\
   (c10_ops_sel true false extloop w_R = true /\ c10_one_disconnect_ok (optrace extloop w_R) = false) /\
   (c10_ops_sel true false direct_cb w_R2 = true /\ c10_one_disconnect_ok (optrace direct_cb w_R2) = false).
 Proof. vm_compute. repeat split; reflexivity. Qed.
 Example C10_repaired_defects_hold :
   all_c10 direct w_E = true /\ all_c10 direct w_E2 = true /\ all_c10 direct w_F = true /\
-  all_c10 direct w_G = true /\ all_c10 direct w_C = true.
+  all_c10 direct w_G = true /\ all_c10 direct w_C = true /\
+  all_c10 direct_cb w_D_old = true /\ all_c10 extloop_cb w_D_ext = true.
 Proof. exact C10_repaired_witnesses. Qed.
 
 (* non-vacuity: a history with a refused connection, a server DISCONNECT, a keepalive expiry, a completed
